@@ -55,6 +55,10 @@ fn families() -> Vec<Family> {
              exp_start: Some((json!({"kind": "comment"}), "neighbor")), exp_end: None },
     Family { name: "exp-end-comment-far", rule: json!({"rule": {"kind": "expression_statement", "regex": "^foo"}, "fix": {"template": "gone();", "expandEnd": {"kind": "comment", "stopBy": "end"}}}),
              exp_start: None, exp_end: Some((json!({"kind": "comment"}), "end")) },
+    // the template reproduces the matched text and only the expansion changes the file (a trailing comma is removed): an
+    // edit like any other in every front end
+    Family { name: "exp-identity", rule: json!({"rule": {"kind": "number", "regex": "^7$"}, "fix": {"template": "7", "expandEnd": {"regex": "^,$"}}}),
+             exp_start: None, exp_end: Some((json!({"regex": "^,$"}), "neighbor")) },
     Family { name: "exp-trim", rule: json!({"rule": {"pattern": "let $X = $Y"}, "fix": {"template": "var $X = $Y", "expandEnd": {"kind": "comment"}}}),
              exp_start: None, exp_end: Some((json!({"kind": "comment"}), "neighbor")) },
   ]
